@@ -113,4 +113,56 @@ inductive Reach : Streams → Prop
   | init {s : Streams} : InitS s → Reach s
   | step {s s' : Streams} : Reach s → ApiStep s s' → Reach s'
 
+-- ===================================================================== the invariants hold in every reachable state
+
+/-- a stream state with an empty store, empty queues and zero counters -/
+structure Blank (s : Streams) : Prop where
+  slab : s.store.slab = []
+  nextKey : s.store.nextKey = 0
+  numSend : s.counts.numSendStreams = 0
+  numRecv : s.counts.numRecvStreams = 0
+  numReset : s.counts.numLocalResetStreams = 0
+  numRemote : s.counts.numRemoteResetStreams = 0
+  numErr : s.counts.numLocalErrorResetStreams = 0
+  resetQ : s.recv.pendingResetExpired = []
+
+theorem Blank.keysOK {s : Streams} (h : Blank s) : KeysOK s :=
+  ⟨by rw [h.slab]; exact List.nodup_nil, by intro x hx; rw [h.slab] at hx; cases hx⟩
+
+theorem Blank.inv1 {s : Streams} (h : Blank s) : Inv1 s :=
+  ⟨by unfold cntAll; rw [h.numSend, h.numRecv, h.slab]; rfl, by rw [h.numReset, h.resetQ]; rfl,
+   by rw [h.numRecv]; exact Nat.zero_le _, by rw [h.numReset]; exact Nat.zero_le _,
+   by rw [h.numRemote]; exact Nat.zero_le _, by intro m _; rw [h.numErr]; exact Nat.zero_le _⟩
+
+theorem InitS.from_blank {s : Streams} (h : InitS s) : ∃ s0, Blank s0 ∧ Ev s0 s := by
+  cases h with
+  | client g =>
+    unfold Conn.init
+    dsimp only
+    split
+    · next sz _ =>
+      refine ⟨_, ?_, .trans (cloneHandle_ev _) (setTargetConnectionWindow_ev _ sz)⟩
+      exact ⟨rfl, rfl, rfl, rfl, rfl, rfl, rfl, rfl⟩
+    · refine ⟨_, ?_, cloneHandle_ev _⟩
+      exact ⟨rfl, rfl, rfl, rfl, rfl, rfl, rfl, rfl⟩
+  | server g ecp pf =>
+    unfold Conn.initServer
+    dsimp only
+    split
+    · next sz _ =>
+      refine ⟨_, ?_, setTargetConnectionWindow_ev _ sz⟩
+      exact ⟨rfl, rfl, rfl, rfl, rfl, rfl, rfl, rfl⟩
+    · refine ⟨_, ?_, .refl _⟩
+      exact ⟨rfl, rfl, rfl, rfl, rfl, rfl, rfl, rfl⟩
+
+/-- **the counting invariants hold in every reachable state** (as long as no `assert!` has fired) -/
+theorem Reach.inv {s : Streams} (h : Reach s) : KeysOK s ∧ (s.panicked = none → Inv1 s) := by
+  induction h with
+  | init hi =>
+    obtain ⟨s0, hb, e⟩ := hi.from_blank
+    exact ⟨e.keysOK hb.keysOK, fun hp => e.inv1 hp hb.keysOK hb.inv1⟩
+  | step _ hs ih =>
+    have e := hs.evT ih.1
+    exact ⟨e.keysOK ih.1, fun hp => e.inv1 hp ih.1 (ih.2 (e.mono_panic hp))⟩
+
 end H2V.Lemmas.ConnCountsP
